@@ -9,6 +9,27 @@ REQ = ['Text.Import', 'BF.BruteForce', 'Spec.BFSpec', 'Corr.C07Corr']
 def gen(ctx, label, n):
     rng = ctx.rng(label)
     for k in range(n):
+        if k % 6 == 5:
+            # several "perfect" matchings (everybody a first choice, every hospital / lecturer exactly on target) that
+            # differ only in the second side's ranks: ties at the top of the first-side lists, unit capacities,
+            # strict second-side lists in random orders, read two-sided
+            n = rng.randint(2, 3)
+            na = rng.choice([2, 3])
+            first = []
+            for s in range(n):
+                top = rng.sample(range(1, n + 1), rng.randint(2, n))
+                rest = [p for p in range(1, n + 1) if p not in top]
+                rng.shuffle(rest)
+                first.append([top] + [[p] for p in rest[:rng.randint(0, len(rest))]])
+            projects = [[0, 1, j + 1] for j in range(n)]
+            lecturers = []
+            for j in range(1, n + 1):
+                studs = [s + 1 for s in range(n) if any(j in g for g in first[s])]
+                rng.shuffle(studs)
+                lecturers.append([0, 1, 1, [[x] for x in studs]])
+            ast = dict(na=na, n1=n, n2=n, n3=n, first=first, projects=projects, lecturers=lecturers)
+            yield dict(text=instgen.render(ast), na=na, twopl=True, pc=rng.random() < 0.4, ast=ast)
+            continue
         if k % 4 == 3:
             ast = instgen.gen_tradeoff(rng)      # size vs greediness / cost / generosity trade-offs
         else:
